@@ -4,11 +4,11 @@ import scipy.sparse
 from hypothesis import strategies as st
 
 from vlib.common import Sub, Violation, call, must_raise, trip, same_multiset, O, G
-from checks.nnlib import pyrepseq, nn, related_queries
+from checks.nnlib import pyrepseq, nn, related_queries, CUSTOM, custom_neighbours_self, custom_neighbours_cross
 
 PROPERTY = "C10"
 RULE = ("search cases (clonal-family repertoires, optional second collection of a different size, Levenshtein or Hamming mode, "
-        "k=1..2) x output_type in {triplets, coo_matrix, ndarray} x container in {list, tuple, ndarray, Series with default / "
+        "k=1..2, or a callable custom distance with non-integer values) x output_type in {triplets, coo_matrix, ndarray} x container in {list, tuple, ndarray, Series with default / "
         "shifted / permuted-integer / string / duplicated index} (independently for both collections) x engine in "
         "{nearest_neighbor, symdel, symdel+seqs2, nearest_neighbor+seqs2, hash_based, kdtree, SymdelDB.lookup, LookupDB.lookup}. "
         "Oracle: brute-force triplets; matrix forms must have shape (len(seqs), len(seqs2)) (square without seqs2), d at [r, q] "
@@ -29,7 +29,7 @@ def selftest():
 
 def run(case, seqs_c, seqs2_c):
     e, k, ot = case["engine"], case["k"], case["output_type"]
-    cd = "hamming" if case.get("hamming") else None
+    cd = "hamming" if case.get("hamming") else (CUSTOM[case["custom"]] if case.get("custom") else None)
     if e in ("nearest_neighbor", "symdel", "hash_based", "kdtree"):
         f = getattr(pyrepseq, e)
         return f(seqs_c, max_edits=k, custom_distance=cd, output_type=ot)
@@ -50,17 +50,22 @@ def check(case, rec):
     dist = O.ham if case.get("hamming") else O.lev
     cross = case["engine"] in CROSS
     if cross:
-        want = O.neighbours_cross(seqs2, seqs, k, dist)
+        want = O.neighbours_cross(seqs2, seqs, k, dist) if not case.get("custom") else custom_neighbours_cross(seqs2, seqs, k, case["custom"], float("inf"))
         shape = (len(seqs), len(seqs2))
     else:
-        want = O.neighbours_self(seqs, k, dist)
+        want = O.neighbours_self(seqs, k, dist) if not case.get("custom") else custom_neighbours_self(seqs, k, case["custom"], float("inf"))
         shape = (len(seqs), len(seqs))
+    want = [(a, b, int(d) if float(d) == int(d) else float(d)) for a, b, d in want]
     cont, cont2 = case["container"], case.get("container2", "list")
     cl = [case["engine"], case["output_type"], cont]
     odd_index = cont in ("series_shifted", "series_perm", "series_str", "series_dup") or \
         (cross and cont2 in ("series_shifted", "series_perm", "series_str", "series_dup"))
     matrix_nt = case["output_type"] != "triplets" and cross and len(seqs) != len(seqs2) and \
         any(d > 0 and q != r for q, r, d in want)
+    if case.get("custom"):
+        cl.append("custom_distance")
+        if any(float(d) != int(d) for _, _, d in want):
+            cl.append("non_integer_values")
     if odd_index:
         cl.append("non_default_index")
     if matrix_nt:
@@ -112,6 +117,9 @@ def search_case(draw, tier="quick"):
             "container": draw(st.sampled_from(G.CONTAINERS)), "perm": draw(st.integers(0, 50))}
     if hamming:
         case["hamming"] = True
+    elif draw(st.integers(0, 3)) == 0:
+        # a callable custom distance with non-integer values: the matrix forms must hold exactly these values
+        case["custom"] = draw(st.sampled_from(["half", "one_and_half", "blocks", "lenpen"]))
     if engine in CROSS:
         q = draw(related_queries(seqs, alpha, max_size=8 if small else 20, max_edits=2, hamming=hamming))
         if draw(st.booleans()):
